@@ -210,7 +210,7 @@ impl BuildJob<'_> {
             tmp_base_name.push(".redo.tmp");
             df.do_dir.join(tmp_base_name)
         };
-        helpers::unlink(&tmp_name).map_err(RedoError::opaque_error)?;
+        remove_tmp_output(&tmp_name)?;
         let out_file = tempfile::tempfile().map_err(RedoError::opaque_error)?;
         helpers::close_on_exec(out_file.as_raw_fd(), true).map_err(RedoError::opaque_error)?;
         // this will run in the dofile's directory, so use only basenames here
@@ -626,7 +626,7 @@ impl BuildJob<'_> {
         }
         // rv might have changed up above
         if rv != EXIT_SUCCESS {
-            helpers::unlink(tmp_name).expect("failed to remove temporary output file");
+            remove_tmp_output(tmp_name).expect("failed to remove temporary output file");
             if let Err(e) = sf.set_failed(ptx.state().env()) {
                 log_err!("{:?}: set failed: {}", t, e);
                 rv = EXIT_BUILD_JOB_ERROR;
@@ -966,6 +966,18 @@ where
             }
             x = fg_future => return x,
         }
+    }
+}
+
+/// Remove the temporary output of a build, whatever the script made of it:
+/// `mkdir $3` is how a directory target is produced, so a script that fails
+/// after that leaves a directory behind.
+fn remove_tmp_output(tmp_name: &Path) -> Result<(), RedoError> {
+    match helpers::unlink(tmp_name) {
+        Err(Errno::EISDIR) | Err(Errno::EPERM) => {
+            fs::remove_dir_all(tmp_name).map_err(RedoError::opaque_error)
+        }
+        r => r.map_err(RedoError::opaque_error),
     }
 }
 
